@@ -1037,8 +1037,56 @@ def check_l2(c, pi_model):
 
 # ----------------------------------------------------------------------------
 
+ANGLE_NAMES = [  # every name of the ANGLES group of units/builtin.rs -> unit of the model (coq/Elem/AngleTable.v has the same list)
+    ('radian', 'radian'), ('radians', 'radian'), ('rad', 'radian'),
+    ('circle', 'circle'), ('circles', 'circle'), ('turn', 'circle'), ('turns', 'circle'), ('revolution', 'circle'),
+    ('revolutions', 'circle'), ('rev', 'circle'), ('revs', 'circle'),
+    ('degree', 'degree'), ('degrees', 'degree'), ('deg', 'degree'), ('degs', 'degree'), ('\u00b0', 'degree'),
+    ('arcdeg', 'degree'), ('arcdegs', 'degree'),
+    ('arcmin', 'arcmin'), ('arcmins', 'arcmin'), ('arcminute', 'arcmin'), ('arcminutes', 'arcmin'),
+    ('arcsec', 'arcsec'), ('arcsecs', 'arcsec'), ('arcsecond', 'arcsec'), ('arcseconds', 'arcsec'),
+    ('rightangle', 'rightangle'), ('rightangles', 'rightangle'),
+    ('gradian', 'gradian'), ('gradians', 'gradian'), ('gon', 'gradian'), ('gons', 'gradian'), ('grad', 'gradian'),
+    ('quadrant', 'quadrant'), ('quadrants', 'quadrant'), ('quintant', 'quintant'), ('quintants', 'quintant'),
+    ('sextant', 'sextant'), ('sextants', 'sextant'), ('zodiac_sign', 'zodiacsign'), ('zodiac_signs', 'zodiacsign'),
+    ('mas', 'milliarcsec'),
+]
+
+def check_angle_units(c):
+    """every angle unit name, resolved by the tree under test (units hook), must be exactly one of itself,
+    dimensionless, and reduce to radians with the exact factor of the model (Model.unit_in_pi) -- the same
+    obligation as C15_angle_unit_table, asked of the live resolver on every run (the generated table is only
+    regenerated by the units checks and, here, in the thorough tier)"""
+    sys_path = os.path.join(ROOT, 'tools')
+    import sys
+    if sys_path not in sys.path:
+        sys.path.insert(0, sys_path)
+    import gen_tables
+    names = [n for n, _ in ANGLE_NAMES]
+    outs = c.impl('units', [sx([Sym('resolve'), gen_tables.CTX, n]) for n in names])
+    mo = c.model('elem', [sx([Sym('angle'), Sym(u), 0, 1, 1]) for _, u in ANGLE_NAMES], cross=False)
+    for (n, u), o, m in zip(ANGLE_NAMES, outs, mo):
+        c.note_case('angle-unit:' + n, True, 'angle-unit-table')
+        pm = parse_ok(m)
+        want = ('pi' if pm[0] else 's', Fraction(-pm[2] if pm[1] else pm[2], pm[3])) if pm else None
+        good = False
+        try:
+            r = gen_tables.dec_resolved(parse_sx(o))
+            if r[0] == 'ok' and r[2] is not None:
+                val, (red, _) = r[1], r[2]
+                good = (val['val'] == ('s', Fraction(1)) and val['exact'] and len(val['units']) == 1 and val['units'][0][1] == 1
+                        and red['base'] == [] and red['scale'] == want and val['units'][0][0]['scale'] == want)
+        except Exception as e:
+            c.notes.append('angle unit %s: could not decode the hook answer: %r' % (n, e))
+        if not good:
+            c.violation('angle-unit-factor-wrong', {'kind': 'impl-vs-spec', 'layer': 'L1', 'op': 'units-resolve', 'unit': n,
+                                                    'impl': o[:600], 'expected_factor_to_radians': repr(want)})
+
+
 C15_CONE = ['Base.Prelude', 'Elem.Bridge', 'Elem.Model', 'Elem.ModelProofs', 'Elem.BridgeProofs', 'Elem.RootProofs', 'Elem.RoundProofs',
-            'Elem.TrigReals', 'Elem.PointDefs', 'Elem.Accuracy', 'Elem.AccuracySmall', 'Properties.C15']
+            'Elem.RoundMulti', 'Elem.TrigReals', 'Elem.PointDefs', 'Elem.Accuracy', 'Elem.AccuracySmall', 'Elem.AccuracyMulti',
+            'Elem.LogAccuracy', 'Units.Defs', 'Units.Algebra', 'Units.Lookup', 'Units.Generated.UnitTable', 'Elem.AngleTable',
+            'Properties.C15']
 
 def thorough_proof_c15(c):
     """thorough tier: rebuild the cone of Properties/C15.vo from scratch in a fresh directory and re-check
@@ -1085,10 +1133,23 @@ def check(c):
               'every Real function on Simple and Pi-pattern arguments with libm answers supplied as an oracle table, BigRat::pow/Real::pow with root indices 2..7; '
               'L2: sin/cos at every multiple of pi/12 up to 100 pi (thorough 1000 pi) both signs, angle units, ~9 (thorough 190) random rationals per function over 1e-20..1e40, '
               'exp/powers/constants, complex extensions, domain edges, probes of each known class; non-trivial = anything but the literal exact points; distinct by input text')
+    if c.tier == 'thorough':
+        # regenerate the unit table from the tree under test (about 2.5 minutes): C15_angle_unit_table is then
+        # a statement about that tree; in the quick tier the live resolver is asked instead (check_angle_units)
+        import sys
+        if os.path.join(ROOT, 'tools') not in sys.path:
+            sys.path.insert(0, os.path.join(ROOT, 'tools'))
+        import gen_tables
+        try:
+            _, changed, _ = gen_tables.generate()
+            c.extra['unit_table_regenerated'] = {'changed': bool(changed)}
+        except Exception as e:
+            c.notes.append('unit table could not be regenerated: %r' % (e,))
     ok = c.proof(['C15'], extra_targets=['Extract/XElem.vo', 'Elem/PointDefs.vo'])
     if c.tier == 'thorough' and ok:
         thorough_proof_c15(c)
     pim = check_pi(c)
+    check_angle_units(c)
     check_into_f64(c)
     check_from_f64(c)
     check_real_fns(c)
